@@ -93,6 +93,22 @@ func (o *rateLimitOptions) validate() (err error) {
 	)
 }
 
+// validateSubnetKeyLen returns an error if the subnet-key length in o does not
+// fit into an address of maxLen bits.  A nil o is reported by
+// [rateLimitOptions.validate] and is not an error here.
+func validateSubnetKeyLen(o *rateLimitOptions, maxLen int) (err error) {
+	if o != nil && o.SubnetKeyLen > maxLen {
+		return fmt.Errorf(
+			"subnet_key_len: %w: must be less than or equal to %d, got %d",
+			errors.ErrOutOfRange,
+			maxLen,
+			o.SubnetKeyLen,
+		)
+	}
+
+	return nil
+}
+
 // toInternal converts c to the rate limiting configuration for the DNS server.
 // c must be valid.
 func (c *rateLimitConfig) toInternal(al ratelimit.Allowlist) (conf *ratelimit.BackoffConfig) {
@@ -126,6 +142,12 @@ func (c *rateLimitConfig) validate() (err error) {
 		validateProp("connection_limit", c.ConnectionLimit.validate),
 		validateProp("ipv4", c.IPv4.validate),
 		validateProp("ipv6", c.IPv6.validate),
+		validateProp("ipv4", func() (err error) {
+			return validateSubnetKeyLen(c.IPv4, netutil.IPv4BitLen)
+		}),
+		validateProp("ipv6", func() (err error) {
+			return validateSubnetKeyLen(c.IPv6, netutil.IPv6BitLen)
+		}),
 		validateProp("quic", c.QUIC.validate),
 		validateProp("tcp", c.TCP.validate),
 		validatePositive("backoff_count", c.BackoffCount),
